@@ -154,18 +154,33 @@ func (d *downstream) RoundTrip(r *http.Request) (*http.Response, error) {
 		var mu sync.Mutex
 		q = shardedQueryable{w: d.w, keep: func(l labels.Labels) bool { mu.Lock(); defer mu.Unlock(); return m.MatchesLabels(l) }}
 	}
-	start, end, step := parseSecMs(r.Form.Get("start")), parseSecMs(r.Form.Get("end")), parseSecMs(r.Form.Get("step"))
-	qry, err := d.eng.NewRangeQuery(r.Context(), q, nil, r.Form.Get("query"), time.UnixMilli(start), time.UnixMilli(end), time.Duration(step)*time.Millisecond)
+	instant := strings.HasSuffix(r.URL.Path, "/api/v1/query")
+	var qry promql.Query
+	var err error
+	if instant {
+		qry, err = d.eng.NewInstantQuery(r.Context(), q, nil, r.Form.Get("query"), time.UnixMilli(parseSecMs(r.Form.Get("time"))))
+	} else {
+		start, end, step := parseSecMs(r.Form.Get("start")), parseSecMs(r.Form.Get("end")), parseSecMs(r.Form.Get("step"))
+		qry, err = d.eng.NewRangeQuery(r.Context(), q, nil, r.Form.Get("query"), time.UnixMilli(start), time.UnixMilli(end), time.Duration(step)*time.Millisecond)
+	}
 	body := []byte{}
 	code := 200
 	if err != nil {
 		code, body = 400, errJSON(err)
 	} else {
 		res := qry.Exec(r.Context())
+		switch v := res.Value.(type) {
+		case promql.Matrix:
+			body = matrixJSON(v)
+		case promql.Vector:
+			body = vectorJSON(v)
+		default:
+			if res.Err == nil {
+				res.Err = fmt.Errorf("unsupported result type %T", res.Value)
+			}
+		}
 		if res.Err != nil {
 			code, body = 422, errJSON(res.Err)
-		} else {
-			body = matrixJSON(res.Value.(promql.Matrix))
 		}
 		qry.Close()
 	}
@@ -175,6 +190,22 @@ func (d *downstream) RoundTrip(r *http.Request) (*http.Response, error) {
 
 func errJSON(err error) []byte {
 	b, _ := json.Marshal(map[string]any{"status": "error", "errorType": "execution", "error": err.Error()})
+	return b
+}
+
+func vectorJSON(v promql.Vector) []byte {
+	type smpl struct {
+		Metric map[string]string `json:"metric"`
+		Value  [2]any            `json:"value"`
+	}
+	res := make([]smpl, 0, len(v))
+	for _, s := range v {
+		res = append(res, smpl{Metric: s.Metric.Map(), Value: [2]any{float64(s.T) / 1000, strconv.FormatFloat(s.F, 'f', -1, 64)}})
+	}
+	b, err := json.Marshal(map[string]any{"status": "success", "data": map[string]any{"resultType": "vector", "result": res}})
+	if err != nil {
+		panic(err)
+	}
 	return b
 }
 
@@ -234,9 +265,14 @@ type result struct {
 	Out []map[string]any `json:"out"`
 }
 
-func run(rt http.RoundTripper, query string) result {
+func run(rt http.RoundTripper, query string, instant bool) result {
 	params := url.Values{"query": {query}, "start": {"60"}, "end": {"180"}, "step": {"60"}, "dedup": {"true"}}
-	u := &url.URL{Scheme: "http", Host: "frontend.verif", Path: "/api/v1/query_range", RawQuery: params.Encode()}
+	path := "/api/v1/query_range"
+	if instant {
+		params = url.Values{"query": {query}, "time": {"120"}, "dedup": {"true"}}
+		path = "/api/v1/query"
+	}
+	u := &url.URL{Scheme: "http", Host: "frontend.verif", Path: path, RawQuery: params.Encode()}
 	req, _ := http.NewRequest(http.MethodGet, u.String(), nil)
 	req = req.WithContext(user.InjectOrgID(context.Background(), "t"))
 	resp, err := rt.RoundTrip(req)
@@ -254,6 +290,7 @@ func run(rt http.RoundTripper, query string) result {
 			Result []struct {
 				Metric map[string]string   `json:"metric"`
 				Values [][]json.RawMessage `json:"values"`
+				Value  []json.RawMessage   `json:"value"`
 			} `json:"result"`
 		} `json:"data"`
 	}
@@ -266,6 +303,9 @@ func run(rt http.RoundTripper, query string) result {
 		// that is missing, duplicated or different shows up
 		var parts []string
 		v0 := ""
+		if len(st.Value) == 2 {
+			st.Values = append(st.Values, st.Value)
+		}
 		for _, p := range st.Values {
 			var vs string
 			_ = json.Unmarshal(p[1], &vs)
@@ -380,12 +420,12 @@ func TestC44(t *testing.T) {
 			}
 			q := render(vt.Map(vt.Normalize(c)["expr"]))
 			for k := 0; k < worldsPer; k++ {
-				yield(vt.Case{"query": q, "expr": c["expr"], "nshards": 2 + rnd.Intn(3), "series": randWorld(rnd, []string{"a", "b"}, vt.Pick(4, 7), false)})
+				yield(vt.Case{"query": q, "expr": c["expr"], "nshards": 2 + rnd.Intn(3), "instant": rnd.Intn(3) == 0, "series": randWorld(rnd, []string{"a", "b"}, vt.Pick(4, 7), false)})
 			}
 		}
 		for _, q := range concreteQueries {
 			for k := 0; k < vt.Pick(4, 40); k++ {
-				yield(vt.Case{"query": q, "nshards": 2 + rnd.Intn(4), "series": randWorld(rnd, []string{"a", "b"}, 8, strings.Contains(q, "histogram_quantile"))})
+				yield(vt.Case{"query": q, "nshards": 2 + rnd.Intn(4), "instant": rnd.Intn(3) == 0, "series": randWorld(rnd, []string{"a", "b"}, 8, strings.Contains(q, "histogram_quantile"))})
 			}
 		}
 	}
@@ -409,8 +449,9 @@ func TestC44(t *testing.T) {
 		}
 		rtS, dS := mk(n)
 		rtU, _ := mk(0)
-		sharded := run(rtS, query)
-		unsharded := run(rtU, query)
+		instant := vt.Bool(c["instant"])
+		sharded := run(rtS, query, instant)
+		unsharded := run(rtU, query, instant)
 
 		an, aerr := querysharding.NewQueryAnalyzer().Analyze(query)
 		lbls := an.ShardingLabels()
